@@ -245,6 +245,11 @@ type Pool struct {
 	Dangling []string
 	// Names are symbolic uuid names usable in this transaction.
 	Names []string
+	// NameTable gives the table of the insert that defines each name. A name is only
+	// offered for reference columns of that table (known finding cross-table-uuid:
+	// a uuid that exists in one table and is referenced, dangling, as a row of another
+	// confuses the reference tracker; excluded by construction).
+	NameTable map[string]string
 	// Wide enables full-range values.
 	Wide bool
 	// NoDangling forbids references to non-existing rows.
@@ -339,7 +344,13 @@ func GenAtom(t *rapid.T, b Base, pool *Pool) Atom {
 			if !pool.NoDangling {
 				cands = append(cands, pool.Dangling...)
 			}
-			cands = append(cands, pool.Names...)
+			for _, n := range pool.Names {
+				if tb, ok := pool.NameTable[n]; !ok || tb == b.Ref.Table {
+					cands = append(cands, n)
+				} else {
+					Label("generator", "excluded_known:cross-table-uuid")
+				}
+			}
 		} else {
 			cands = append(cands, plainUUIDs...)
 			if pool != nil {
